@@ -219,7 +219,8 @@ fn main() {
             };
             let sql = stmt.sql();
             sum.count(&format!("stmt_{}", stmt.kind()));
-            let case = json!({"history": h, "profile": pname, "setup": setup_sql, "statement_index": j, "sql": sql,
+            let keys_now: Vec<String> = tabs.iter().filter(|t| !t.dropped).flat_map(|t| t.fks.iter().map(move |f| format!("t{}: {}", t.id, f.clause()))).collect();
+            let case = json!({"history": h, "profile": pname, "setup": setup_sql, "keys_now": keys_now, "statement_index": j, "sql": sql,
                               "pre_state": format!("{:?}", pre), "catalog_order": ord});
             if crash {
                 // confirm in a child process: the whole history so far, then the statement
